@@ -34,6 +34,23 @@ CHECKS = {
         'Trusted: Coq kernel, hand-written model of the repaired calculator, the harness\'s independent expansion to a leaf DAG; '
         'recursion depth and the end_date branch are not modelled.',
         '4.12'),
+    'C18': (
+        'Coq proof that the query/bulk model returns exactly filter(sat) and that sequential identity-based removal equals declarative pruning + differential correspondence on generated task lists and filter combinations; the suffix table is re-extracted from the source and proved equal to the model table on every run',
+        'Theorems (Props_C18.v, closed under the global context): a returning query is filter (key and every keyword filter) in list order; '
+        'meaning of each of the 12 filter forms; unambiguity of the suffix parser; absent/None attributes satisfy no comparison or pattern filter; '
+        'bulk assignment changes attribute k of exactly the selected tasks; remove_all removes exactly the matching tasks with their subtrees and returns them; '
+        'for all lists, attribute populations, filters and any regular-expression oracle. Tie: the model is evaluated on generated cases and compared with the implementation.',
+        'Trusted: Coq kernel + vm_compute, hand-written model, harness; Python re is a Section variable (literal patterns = substring search in the correspondence run); '
+        'comparisons between unrelated types are modelled as TypeError.',
+        '4.18'),
+    'C20': (
+        'Coq proof about the text-table model (lines, order, indentation, widths, link cells, usage-table day range) + byte-exact differential correspondence with the printed text',
+        'Theorems (Props_C20.v): the sheet is header + one line per shown task in depth-first order with 3 spaces per level; all lines have equal visible width and every column fits its longest cell, '
+        'for any field list (unknown fields give empty cells) and theme; link cells show linked ids with (external) exactly when owners differ; the usage table has one line per day from first to last reservation. '
+        'Tie: the model text is compared with repr()/print output of the implementation on generated WBSs, field lists and themes.',
+        'Trusted: Coq kernel + vm_compute, hand-written model of utils.TextTable/_Repr/ResourceUsageReport.__repr__, harness; str() of floats/datetimes is passed in as observed text; '
+        'column order of the usage table (iteration order of a Python set) is observed, not modelled.',
+        '4.20'),
 }
 
 NOT_YET = 'check not built yet in this round (planned, see DESIGN.md section 4)'
